@@ -131,7 +131,7 @@ static int parse(const char* shapesPath, const char* outPath) {
           << "\",\"cls\":\"" << cls << "\",\"ival\":\"" << ival << "\",\"err13\":" << (cls == "finite" || cls == "int" ? relErr13(exact, d) : 0)
           << ",\"mag\":" << mag << ",\"gotmag\":" << ((cls == "finite" || cls == "int") && d != 0 ? (int)std::floor(std::log10(std::fabs(d))) : -99999)
           << ",\"signok\":" << (signok ? "true" : "false") << ",\"asu\":\"" << asU << "\",\"asi\":\"" << asI
-          << "\"}\n";
+          << "\",\"prec\":\"" << (ARDUINOJSON_USE_DOUBLE ? "double" : "float") << "\"}\n";
       n++;
     }
   }
